@@ -205,6 +205,39 @@ def vert_fn(text, struct, n):
             "%s\n  proof {\n%s\n  }\n  Some(())\n}\n" % (struct, params, ",\n    ".join(req), ",\n    ".join(ens), "\n".join(lines), "\n".join(proof)))
 
 
+def nargs_fn(text, struct="HorizontalConcatenateNArgs", copy="copy_into"):
+    """`for e in &self.e0 { offset += e.copy_into(&self.out, offset); }` -> index loop over the operand vector (K rule:
+    `for e in &self.e0 {` -> `for k_ in 0..es.len() { let e = &es[k_];`, the call -> `copy_into(e, out, offset)?`)"""
+    m = vlib.find_code(text, r"impl<T>\s+MechFunctionImpl\s+for\s+%s<T>" % struct)
+    if not m:
+        raise AnchorLost("impl MechFunctionImpl for %s not found" % struct)
+    i = m.end()
+    while text[i] != "{" or text[m.end():i].count("<") != text[m.end():i].count(">"):
+        i += 1
+    sig, body = extract_fn(text[m.start():vlib.match_brace(text, i)], "solve")
+    b = body.strip()
+    if b.startswith("{"):
+        b = b[1:vlib.match_brace(b, 0) - 1]
+    b, n1 = re.subn(r"for\s+e\s+in\s+&self\.e0\s*\{", "for k_ in 0..es.len()\nINV\n{ let e = &es[k_];\nPRE", b)
+    b, n2 = re.subn(r"\be\.(%s)\(\s*&self\.out\s*,\s*offset\s*\)\s*;" % copy, r"\1(e, out, offset)?;\nPOST", b)
+    if n1 != 1 or n2 != 1 or "self." in b:
+        raise AnchorLost("%s::solve is no longer `for e in &self.e0 { offset += e.%s(&self.out, offset); }`" % (struct, copy))
+    inv = ("    invariant out.wf(), out.r == old(out).r, out.c == old(out).c, out.d@.len() == old(out).d@.len(), out.d@.len() == total(es@, es@.len() as int),\n"
+           "      forall|k: int| 0 <= k < es@.len() ==> (#[trigger] es@[k]).wf(),\n"
+           "      offset == total(es@, k_ as int),\n"
+           "      forall|kk: int, p: int| 0 <= kk < k_ && 0 <= p < es@[kk].d@.len() ==> out.d@[#[trigger] (total(es@, kk) + p)] == #[trigger] es@[kk].d@[p],")
+    pre = "proof { lemma_total_mono(es@, k_ as int + 1, es@.len() as int); lemma_total_mono(es@, 0, k_ as int); assert(out.d@.len() == out.d.len()); }\n let ghost before = out.d@;"
+    post = ("proof {\n    assert forall|kk: int, p: int| 0 <= kk < k_ + 1 && 0 <= p < es@[kk].d@.len() implies out.d@[#[trigger] (total(es@, kk) + p)] == #[trigger] es@[kk].d@[p] by {\n"
+            "      if kk < k_ { lemma_total_mono(es@, kk + 1, k_ as int); lemma_total_mono(es@, 0, kk); assert(before[total(es@, kk) + p] == es@[kk].d@[p]); }\n"
+            "      else { assert(out.d@[total(es@, k_ as int) + p] == es@[k_ as int].d@[p]); }\n    }\n  }")
+    b = b.replace("INV", inv).replace("PRE", pre).replace("POST", post)
+    req = ["forall|k: int| 0 <= k < es@.len() ==> (#[trigger] es@[k]).wf()", "old(out).wf()", "old(out).d@.len() == total(es@, es@.len() as int)"]
+    ens = ["res.is_some()", "final(out).r == old(out).r", "final(out).c == old(out).c",
+           "forall|kk: int, p: int| 0 <= kk < es@.len() && 0 <= p < es@[kk].d@.len() ==> final(out).d@[#[trigger] (total(es@, kk) + p)] == #[trigger] es@[kk].d@[p]"]
+    return ("fn k_%s(es: &Vec<Mat>, out: &mut Mat) -> (res: Option<()>)\n  requires %s,\n  ensures %s,\n{\n%s\n  Some(())\n}\n" % (
+        struct, ",\n    ".join(req), ",\n    ".join(ens), b))
+
+
 def kernel_items():
     text = vlib.read_repo(CORE)
     items = []
@@ -216,6 +249,7 @@ def kernel_items():
     ht = vlib.read_repo(HORZ)
     for struct, n in HCAT.items():
         items.append((struct, horz_fn(ht, struct, n)))
+    items.append(("HorizontalConcatenateNArgs", nargs_fn(ht)))
     vt = vlib.read_repo(VERT)
     for struct, n in VCAT.items():
         items.append((struct, vert_fn(vt, struct, n)))
@@ -259,14 +293,15 @@ def add_units(plan, prop="C11"):
         u.rlimit = 150
         plan.verus.append(u)
     ht, vt = vlib.read_repo(HORZ), vlib.read_repo(VERT)
-    jobs = [(s_, n, ht, "h") for s_, n in HCAT.items()] + [(s_, n, vt, "v") for s_, n in VCAT.items()] + [(s_, n, vt, "l") for s_, n in VDCAT.items()]
+    jobs = [(s_, n, ht, "h") for s_, n in HCAT.items()] + [(s_, n, vt, "v") for s_, n in VCAT.items()] + [(s_, n, vt, "l") for s_, n in VDCAT.items()] + \
+           [("HorizontalConcatenateNArgs", 0, ht, "n")]
     for struct, n, text, kind in jobs:
         ob = plan.ob("%s.verus.%s" % (prop, struct), "verus", "proved", functions=["%s::solve" % struct],
                      what="%s::solve (checked against the contracts of the copy functions it calls, not their bodies): out is the %s of its %d operands in written order, for every block shape" % (
-                         struct, {"h": "horizontal block matrix", "v": "vertical block matrix", "l": "stacked column vector"}[kind], n))
+                         struct, {"h": "horizontal block matrix", "v": "vertical block matrix", "l": "stacked column vector", "n": "concatenation (any number of operands, loop over the operand vector)"}[kind], n))
         try:
-            fn = vert_fn(text, struct, n) if kind == "v" else horz_fn(text, struct, n, block=(kind == "h"))
-            need = "copy_into_row_major" if kind == "v" else ("copy_into" if kind == "h" else "copy_into_v")
+            fn = vert_fn(text, struct, n) if kind == "v" else nargs_fn(text, struct) if kind == "n" else horz_fn(text, struct, n, block=(kind == "h"))
+            need = "copy_into_row_major" if kind == "v" else ("copy_into" if kind in ("h", "n") else "copy_into_v")
             if need not in callee:
                 raise AnchorLost("callee %s has no contract in this run" % need)
             items = [model, callee[need], fn, vlib.verus_canary("canary_" + struct, "x: u64", [])]
